@@ -16,7 +16,7 @@ import tempfile
 from . import core, model_io as M, seams
 
 PROP = "C20"
-RUNS = {"quick": 640, "thorough": 32000}
+RUNS = {"quick": 4000, "thorough": 120000}
 RUN_TIMEOUT = 120.0
 ACCESS = ["path", "stringio", "wrapper", "realpath", "realhandle", "reuse_stringio", "reuse_wrapper"]
 ASSUMPTIONS = [
@@ -396,7 +396,7 @@ class _WalkEngine(object):
         return {"walk": plan["walk"]["mode"], "fmt": plan["walk"]["spec"]["fmt"], "text": plan["walk"]["spec"]["text"]}
 
 
-WALK_FILES = {"quick": 30, "thorough": 600}
+WALK_FILES = {"quick": 60, "thorough": 2000}
 
 
 def extra_phase(tier, seed, agg):
